@@ -15,7 +15,7 @@ SPEC = {
                                                  "C02/no-dangling-referent", "C02/retarget_to_proxy-makes-labels-external", "C02/label-survives"], space=dict(bare=(False, True))),
     "C03": dict(vals=[VAL.c03_cfg], clauses=["C03/falls-through-to-the-physically-next-block", "C03/no-fallthrough-after-ret-or-jmp",
                                               "C03/branch-edge-leads-to-its-target-label", "C03/no-control-transfer-buried-mid-block",
-                                              "C03/returns-lead-to-the-return-sites-of-the-callers", "C03/no-edge-to-a-removed-block"], space=dict(callee2=(False, True), gaps=(False, True))),
+                                              "C03/returns-lead-to-the-return-sites-of-the-callers", "C03/no-edge-to-a-removed-block"], space=dict(callee2=(False, True), gaps=(False, True), ftflags=(False, True))),
     "C04": dict(vals=[VAL.c04_annotations], clauses=["C04/annotations-travel-with-their-byte", "C04/symbolic-expressions-travel-with-their-byte",
                                                       "C04/patch-expression-at-its-offset-with-module-symbol", "C04/no-annotation-on-removed-nodes",
                                                       "C04/nothing-points-outside-its-element", "C04/no-duplicate-symbols"],
